@@ -12,6 +12,7 @@ use p256::ecdsa::VerifyingKey;
 use p256::elliptic_curve::sec1::FromEncodedPoint;
 use p256::elliptic_curve::subtle::CtOption;
 use p256::EncodedPoint;
+use p256::FieldBytes;
 use p256::PublicKey;
 
 /// A verifier that can handle the
@@ -47,21 +48,13 @@ impl Secp256R1Verifier {
       .try_ec_params()
       .map_err(|_| SignatureVerificationErrorKind::UnsupportedKeyType)?;
 
-    // Concatenate x and y coordinates as required by
-    // EncodedPoint::from_untagged_bytes.
-    let public_key_bytes = jwu::decode_b64(&params.x)
-      .map_err(|err| {
-        SignatureVerificationError::new(SignatureVerificationErrorKind::KeyDecodingFailure).with_source(err)
-      })?
-      .into_iter()
-      .chain(jwu::decode_b64(&params.y).map_err(|err| {
-        SignatureVerificationError::new(SignatureVerificationErrorKind::KeyDecodingFailure).with_source(err)
-      })?)
-      .collect();
+    // Decode the affine x and y coordinates; a coordinate that is not exactly one field element long is not a valid key.
+    let x: FieldBytes = Self::decode_coordinate(&params.x)?;
+    let y: FieldBytes = Self::decode_coordinate(&params.y)?;
 
     // The JWK contains the uncompressed x and y coordinates, so we can create the
-    // encoded point directly without prefixing an SEC1 tag.
-    let encoded_point: EncodedPoint = EncodedPoint::from_untagged_bytes(&public_key_bytes);
+    // (uncompressed) encoded point directly from them.
+    let encoded_point: EncodedPoint = EncodedPoint::from_affine_coordinates(&x, &y, false);
     let public_key: PublicKey = {
       let opt_public_key: CtOption<PublicKey> = PublicKey::from_encoded_point(&encoded_point);
       if opt_public_key.is_none().into() {
@@ -85,5 +78,14 @@ impl Secp256R1Verifier {
         Err(SignatureVerificationError::new(SignatureVerificationErrorKind::InvalidSignature).with_source(err))
       }
     }
+  }
+
+  /// Decodes a base64url-encoded affine coordinate of a JWK; `KeyDecodingFailure` unless it has the length of a field element.
+  fn decode_coordinate(coordinate: &str) -> Result<FieldBytes, SignatureVerificationError> {
+    let bytes: Vec<u8> = jwu::decode_b64(coordinate).map_err(|err| {
+      SignatureVerificationError::new(SignatureVerificationErrorKind::KeyDecodingFailure).with_source(err)
+    })?;
+    FieldBytes::from_exact_iter(bytes)
+      .ok_or_else(|| SignatureVerificationError::new(SignatureVerificationErrorKind::KeyDecodingFailure))
   }
 }
